@@ -181,15 +181,24 @@ def mon_C08(s, k=4):
         runs.append(p)
     a = runs[0].summary()
     clash = any(v > 1 for v in publish_names(s).values())
+
+    def d17(run):
+        # D17: a completed record whose transitions were all decided false is flagged terminal only if
+        # the workflow completed in that very call; its context is then missing from the output
+        st = run.replies[-1].get("state") or {}
+        return any(r["next"] and not any(r["next"].values()) and not r["term"] and r["status"] in monitors.TERMINAL
+                   for r in st.get("sequence", []))
     for p in runs[1:]:
         b = p.summary()
         if a["status"] != b["status"]:
-            return [_viol(s, p, "final status depends on the completion order: %s vs %s" % (a["status"], b["status"]), "D7" if clash else None)]
+            fin = "D7" if clash else ("D17" if d17(p) or d17(runs[0]) else None)
+            return [_viol(s, p, "final status depends on the completion order: %s vs %s" % (a["status"], b["status"]), fin)]
         if a["status"] == "succeeded":
             if a["execs"] != b["execs"]:
                 return [_viol(s, p, "executed tasks depend on the completion order: %s vs %s" % (a["execs"], b["execs"]))]
             if not clash and (a["contexts"] != b["contexts"] or a["output"] != b["output"]):
-                return [_viol(s, p, "published values / output depend on the completion order")]
+                return [_viol(s, p, "published values / output depend on the completion order",
+                              "D17" if d17(p) or d17(runs[0]) else None)]
     return []
 
 
